@@ -104,6 +104,8 @@ impl Setup {
                 own: toks[9].parse().ok().filter(|i| *i < 5)?,
                 peer: toks[10].parse().ok().filter(|i| *i < 5)?,
                 seed: toks[11].parse().ok()?,
+                init_policy: None,
+                key_policy: None,
             },
             chan_id: toks[7].parse().ok()?,
             token_id: toks[8].parse().ok()?,
@@ -116,6 +118,91 @@ fn secured(c: &Cfg) -> bool {
         && matches!(c.mode, MessageSecurityMode::Sign | MessageSecurityMode::SignAndEncrypt)
 }
 
+/// deterministic boundary suite (round 3): every policy x mode x kind, the body budget hit exactly,
+/// every padding length, the extra padding byte of keys > 2048 bits, the limits at their boundaries
+fn suite(out: &mut Vec<String>) {
+    let mut seed = 7000u64;
+    let kinds = ["msg", "opn", "clo"];
+    let op_line = |op: &str, kind: &str, seq: u32, max_msg: usize, max_chunk: usize, str_len: usize| -> String {
+        let msg = make_msg(kind, str_len).unwrap();
+        format!("{} {} {} {} {} {} {} {} {}", op, kind, seq, 4242, max_msg, max_chunk, str_len, msg.byte_len(), msg.node_id().byte_len())
+    };
+    for &policy in POLICIES.iter() {
+        for &mode in MODES.iter() {
+            seed += 1;
+            let st = Setup {
+                cfg: Cfg {
+                    policy,
+                    mode,
+                    has_cert: true,
+                    has_key: true,
+                    keys: true,
+                    client: seed % 2 == 0,
+                    own: (seed % 2) as usize * 2,
+                    peer: 1,
+                    seed,
+                    init_policy: None,
+                    key_policy: None,
+                },
+                chan_id: 5,
+                token_id: 6,
+            };
+            out.push(st.reset_line());
+            let sender = st.sender();
+            for kind in kinds {
+                out.push(op_line("rt", kind, 1, 0, 8196, 10));
+                let mt = match kind {
+                    "opn" => MessageChunkType::OpenSecureChannel,
+                    "clo" => MessageChunkType::CloseSecureChannel,
+                    _ => MessageChunkType::Message,
+                };
+                let per = std::panic::catch_unwind(std::panic::AssertUnwindSafe(|| {
+                    MessageChunk::body_size_from_message_size(mt, &sender, 8196).unwrap_or(8000)
+                }))
+                .unwrap_or(8000);
+                let base = make_msg(kind, 0).map(|m| m.byte_len() + m.node_id().byte_len()).unwrap_or(60);
+                if kind != "opn" || mode == MessageSecurityMode::None || policy == SecurityPolicy::None {
+                    // data length = budget - 1, budget, budget + 1, 2 x budget (last chunk full)
+                    for target in [per - 1, per, per + 1, 2 * per] {
+                        out.push(op_line(if target == per { "sz" } else { "rt" }, kind, 9, 0, 8196, target - base));
+                    }
+                }
+            }
+            // every padding length: 16 consecutive sizes of a single chunk
+            if mode == MessageSecurityMode::SignAndEncrypt && policy != SecurityPolicy::None {
+                for k in 0..16 {
+                    out.push(op_line("rt", "msg", 3, 0, 0, 20 + k));
+                }
+            }
+        }
+    }
+    // limits at their boundaries
+    {
+        seed += 1;
+        let st = Setup { cfg: Cfg { policy: SecurityPolicy::None, mode: MessageSecurityMode::None, has_cert: true, has_key: true, keys: true, client: true, own: 0, peer: 1, seed, init_policy: None, key_policy: None }, chan_id: 0, token_id: 0 };
+        out.push(st.reset_line());
+        let len = make_msg("msg", 100).unwrap().byte_len();
+        for mm in [len - 1, len, len + 1] {
+            out.push(op_line("rt", "msg", 1, mm, 0, 100));
+        }
+        for mc in [8195usize, 8196, 8197, 1] {
+            out.push(op_line("sz", "msg", 1, 0, mc, 100));
+        }
+        let st2 = Setup { cfg: Cfg { client: false, ..st.cfg.clone() }, chan_id: 0, token_id: 0 };
+        out.push(st2.reset_line());
+        out.push(op_line("rt", "msg", 1, len - 1, 0, 100));
+    }
+    // receiver key of 4096 bits: the extra padding byte of OPN chunks
+    {
+        seed += 1;
+        let st = Setup { cfg: Cfg { policy: SecurityPolicy::Basic256Sha256, mode: MessageSecurityMode::SignAndEncrypt, has_cert: true, has_key: true, keys: true, client: true, own: 4, peer: 1, seed, init_policy: None, key_policy: None }, chan_id: 1, token_id: 2 };
+        out.push(st.reset_line());
+        out.push(op_line("rt", "opn", 1, 0, 0, 30));
+        out.push(op_line("rt", "opn", 1, 0, 0, 31));
+        out.push(op_line("rt", "msg", 1, 0, 8196, 9000));
+    }
+}
+
 impl Prop for C07 {
     fn id(&self) -> &'static str {
         "C07"
@@ -123,13 +210,14 @@ impl Prop for C07 {
 
     fn gen(&self, rng: &mut Rng, n: usize, tier: Tier, out: &mut Vec<String>) {
         std::panic::set_hook(Box::new(|_| {}));
+        suite(out);
         for _ in 0..n {
             let big = if tier == Tier::Thorough { 2 } else { 0 };
             let policy = *rng.pick(&POLICIES);
             let st = Setup {
                 cfg: Cfg {
                     policy,
-                    mode: MODES[rng.weighted(&[3, 4, 4, if policy == SecurityPolicy::None { 1 } else { 0 }])],
+                    mode: MODES[rng.weighted(&[3, 4, 4, 1])],
                     has_cert: true,
                     has_key: true,
                     keys: true,
@@ -137,6 +225,8 @@ impl Prop for C07 {
                     own: rng.weighted(&[3, 1, 3, 1, big]),
                     peer: rng.weighted(&[3, 1, 3, 1, big]),
                     seed: rng.below(1 << 32),
+                    init_policy: None,
+                    key_policy: None,
                 },
                 chan_id: *rng.pick(&[0u32, 1, 77, u32::MAX]),
                 token_id: rng.below(1000) as u32,
